@@ -42,7 +42,7 @@ ASSUMPTIONS = [
     'C11, has run) and surface ids are non-zero',
 ]
 HEADER = ('From Coq Require Import List ZArith Bool.\n'
-          'From T4V Require Import C01.Model C01.Exec.\n'
+          'From T4V Require Import C01.Model C01.Printer C01.Exec.\n'
           'Import ListNotations.\nOpen Scope Z_scope.\n')
 
 
@@ -129,6 +129,8 @@ def run_pipeline_stream(res, rng, cases, label, chunk=150):
         fails = G.oracle(case, table, irng)
         if G.has_none_operand(obs[2]):
             res.count(f'{label}:none-operand')
+        if obs[7] is not None:
+            res.count(f'{label}:printed-lines-compared', len(obs[7]))
         for why in fails[:1]:
             res.violation('impl-violation',
                           f'volume table breaks the property: {why}'[:300],
